@@ -55,6 +55,8 @@ func main() {
 			tier = os.Args[2]
 		}
 		os.Exit(loadfam.CheckMerge(os.Args[1], tier))
+	case "grow-locate":
+		os.Exit(loadfam.GrowLocate())
 	case "C11":
 		tier := "quick"
 		if len(os.Args) > 2 {
